@@ -281,6 +281,27 @@ func (g *lockGen) plan() *BlockPlan {
 		nUnl = 9 + r.Intn(14)
 		plan.DT = int64(r.Intn(2))
 	}
+	if rare(5) { // boundary-seeking unlock: take a validator's holding of a token with a threshold to just below / exactly at it
+		var cands [][3]int64
+		for vi, v := range st.Val {
+			if vi == 0 || !v.Exists {
+				continue
+			}
+			for ti := range st.Tokens {
+				if th := st.Thr[ti]; th > 0 && v.Locking[ti] >= th {
+					cands = append(cands, [3]int64{int64(vi), int64(ti), v.Locking[ti] - th})
+				}
+			}
+		}
+		if len(cands) > 0 {
+			cnd := cands[r.Intn(len(cands))]
+			amt := cnd[2] + int64(r.Intn(2)) // exactly down to the threshold, or one unit below it
+			id := g.id()
+			lk.Unlocks = append(lk.Unlocks, &goattypes.UnlockRequest{Id: uint64(id), Validator: c.KR.Vals[cnd[0]].EthAddr(), Recipient: rndAddr(r),
+				Token: project.TokenAddrs[cnd[1]], Amount: big.NewInt(amt)})
+			unlocks = append(unlocks, Ev{"id": id, "v": int(cnd[0]) + 1, "t": int(cnd[1]) + 1, "amt": amt})
+		}
+	}
 	if nUnl > 0 {
 		for k := nUnl; k > 0; k-- {
 			vid, addr := pickVal()
